@@ -55,9 +55,10 @@ inductive Err
   | user (swallowed : Bool)   -- raised by the user's fetcher; `swallowed` = it is an OSError or ValueError
   deriving DecidableEq, Repr, Inhabited
 
-/-- caught by `except (OSError, ValueError)` in `CSSImportRule._setHref` (cssimportrule.py:330) -/
+/-- caught by `except (OSError, ValueError, xml.dom.DOMException)` in `CSSImportRule._loadHref`
+(cssimportrule.py:345; DOM exceptions since fix 681bde0) -/
 def Err.swallowedByImport : Err → Bool
-  | .dom => false
+  | .dom => true
   | .decode => true
   | .os => true
   | .user s => s
@@ -189,11 +190,21 @@ def seqR (a : R) (k : G → R) : R :=
   | .error e => ⟨.error e, a.g, a.obs⟩
   | .ok _ => let b := k a.g; ⟨b.res, b.g, a.obs ++ b.obs⟩
 
-/-- `except (OSError, ValueError) as e: self._log.warn(…, neverraise=True)` (cssimportrule.py:330-335) -/
-def swallowImport (r : R) : R :=
+/-- the `except` clause of `_loadHref` (cssimportrule.py:345-352: `log.warn(…, neverraise=True)`) and the
+`else:` that sets `hrefFound`; second component = `hrefFound` -/
+def importLoad (r : R) : R × Bool :=
   match r.res with
-  | .error e => if e.swallowedByImport then ⟨.ok (), r.g, r.obs⟩ else r
-  | .ok _ => r
+  | .error e => if e.swallowedByImport then (⟨.ok (), r.g, r.obs⟩, false) else (r, false)
+  | .ok _ => (r, true)
+
+/-- an @import rule of a sheet that is being parsed: `_loadHref` when the rule's text is set
+(cssimportrule.py:265,280) and, if that did not find the sheet, once more when `insertRule` gives the rule its
+parent sheet (cssstylesheet.py:901-903) -/
+def importTwice (attempt : G → R) (g : G) : R :=
+  let a := importLoad (attempt g)
+  match a.1.res with
+  | .error _ => a.1
+  | .ok _ => if a.2 then a.1 else seqR a.1 fun g => (importLoad (attempt g)).1
 
 section
 variable (env : Env) (fuel : Nat)
@@ -202,14 +213,14 @@ mutual
 def runStep : Step → G → R
   | .log never, g => doLog never g
   | .imp inner res sub, g =>
-    -- cssimportrule.py:296-338: everything is inside `try … except (OSError, ValueError)`
-    swallowImport <|
+    -- cssimportrule.py:309-352: everything is inside `try … except (OSError, ValueError, DOMException)`
+    importTwice (fun g =>
       seqR ⟨.ok (), g, [.seen g.raising]⟩ fun g =>          -- the fetcher is called (util.py:925)
       seqR (runSteps inner g) fun g =>                       -- whatever it does with the library
       match res with
       | .raises e => ⟨.error e, g, []⟩
-      | .nothing => ⟨.error .os, g, []⟩                      -- `raise OSError('Cannot read Stylesheet.')` (:313-315)
-      | .content => runSteps sub g                           -- :327-329 imported sheet is parsed
+      | .nothing => ⟨.error .os, g, []⟩                      -- `raise OSError('Cannot read Stylesheet.')` (:326-328)
+      | .content => runSteps sub g) g                        -- :340-343 the imported sheet is parsed
   | .pp k src, g =>
     let r := ctor env fuel k src g.toPG
     let g := { g with toPG := r.g }
